@@ -68,7 +68,7 @@ var fieldPool = []struct {
 	{"bool", []string{"", "default:true"}}, {"string", []string{"", "default:'it''s'", "default:plain", "column:{c}", "size:300"}},
 	{"bytes", []string{""}}, {"time", []string{"", "autoCreateTime", "autoUpdateTime"}},
 	{"*int64", []string{"", "serializer:unixtime;type:datetime"}}, {"*uint8", []string{""}}, {"*int16", []string{""}}, {"*string", []string{"", "column:{c}"}},
-	{"*bool", []string{""}}, {"*float64", []string{""}}, {"*time", []string{""}},
+	{"*bool", []string{""}}, {"*float64", []string{""}}, {"*time", []string{"", "autoCreateTime", "autoUpdateTime"}}, {"*time", []string{"autoCreateTime", "autoUpdateTime"}},
 	{"NullInt64", []string{""}}, {"NullString", []string{""}}, {"NullBool", []string{""}}, {"NullTime", []string{""}},
 	{"NullFloat64", []string{""}}, {"NullInt32", []string{""}},
 	{"Level", []string{""}}, {"Tag", []string{""}}, {"Cents", []string{""}}, {"*Tag", []string{""}},
@@ -83,7 +83,11 @@ var fieldPool = []struct {
 // genSpec draws a struct type: a key, the marker column, 3..12 further fields.
 func genSpec(r *lib.Rng, id int) (string, []GField) {
 	var spec []GField
-	switch r.Intn(6) {
+	switch r.Intn(8) {
+	case 5: // key by name only, stored under another column name
+		spec = append(spec, GField{"ID", "uint", "column:uid"})
+	case 6:
+		spec = append(spec, GField{"ID", "int64", "column:key_id"})
 	case 0:
 		spec = append(spec, GField{"ID", "uint", "primaryKey"})
 	case 1:
